@@ -28,6 +28,10 @@ def jobs(tier):
         for op in ("next_chunk", "get_byte", "get_string", "get_short", "slice_default", "mode_off"):
             js.append(dict(name=f"step-blind[n={n},{op}]", fn="step", args=[n, op, True], collect_models=1,
                            expect=["post-state: position equals the model's"]))
+    # size thresholds (seed C06h: a widening-window scan that skips offsets 64..127): long chunks, all bytes symbolic
+    for n, lo in ([(72, 60), (136, 120)] if q else [(40, 0), (72, 0), (72, 60), (136, 60), (136, 120), (200, 120), (264, 250), (400, 380), (520, 500)]):
+        js.append(dict(name=f"long[n={n},first break>={lo}]", fn="long_chunks", args=[n, lo], collect_models=1,
+                       expect=["long: second chunk: position equals the model's"]))
     hn, depth = (2, 2) if q else (3, 3)
     for d in range(1, depth + 1):
         for ops in itertools.product(HOPS, repeat=d):
